@@ -91,21 +91,27 @@ def r8a_diagnostic_codes(ctx):
                       "called, only on the not-disabled edge of the gate with the same code literal; the code the quick-fix "
                       "handler compares with is one of them")
     crate = ctx.bin
+    def is_gate_call(g, c):
+        # a gate: a method of the configuration type that is handed a code and answers bool
+        tf = crate.fns.get(c.get("res")) if c.get("res_local") else None
+        return tf is not None and tf.ret == "bool" and tf.argc == 2 and "config::Config" in tf.local_ty(1) \
+            and tf.local_ty(2).lstrip("&") == "str"
     pub = [f for f in crate.real_fns() if f.kind == "coroutine" and any(
         (c.get("res") or "").endswith("::publish_diagnostics") for _bb, c in f.calls())
-        and any((c.get("res") or "").endswith("::is_diagnostic_disabled") for _bb, c in f.calls())]
+        and any(is_gate_call(f, c) for _bb, c in f.calls())]
     if len(pub) != 1:
         r.anchor_missing("diagnostics publisher", "found %d coroutines that gate and publish diagnostics" % len(pub))
         return r
     f = pub[0]
     dom = f.dominators()
-    gates = {}  # literal -> (bb, not_disabled_target)
+    gates = {}  # literal -> (bb, target of the edge on which the code is published)
+    gate_calls = []  # (bb, gate fn id, literal, (true_target, false_target))
     for bb, c in f.calls():
-        if (c.get("res") or "").endswith("::is_diagnostic_disabled"):
+        if is_gate_call(f, c):
             lits = literals_reaching(f, c["args"][1]) if len(c["args"]) > 1 else set()
             sw = _switch_after_call(f, bb)
             if len(lits) == 1 and sw is not None:
-                gates[next(iter(lits))] = (bb, sw[2])  # false edge = not disabled
+                gate_calls.append((bb, c["res"], next(iter(lits)), (sw[1], sw[2])))
             else:
                 r.violate("R8a|gate-shape|%s" % sorted(lits), "gate call at %s does not test one literal code" % crate.span_str(c["span"]))
     # Diagnostic aggregates, in the publisher or in closures nested in it (`.extend(items.into_iter().map(|x| Diagnostic {..}))`):
@@ -130,6 +136,32 @@ def r8a_diagnostic_codes(ctx):
                     codes[l].append(rb)
                 if not lits:
                     r.violate("R8a|diagnostic-without-code", "a Diagnostic is constructed at %s without a literal code" % crate.span_str(sp))
+    # which edge of a gate lets its code through?  The one that dominates the Diagnostic constructions carrying the same literal;
+    # all call sites of one gate function must agree (an inverted gate -- `if disabled(code) { publish it }` -- disagrees with
+    # its siblings), and a gate function named like a negative ("disabled") that is used once keeps the false edge
+    pol = defaultdict(set)
+    per_call = {}
+    for bb, gid, lit, (tt, ft) in gate_calls:
+        cons = [b for b in codes.get(lit, []) if b is not None]
+        e = None
+        if cons and all(tt in dom.get(b, set()) for b in cons):
+            e = "true"
+        elif cons and all(ft in dom.get(b, set()) for b in cons):
+            e = "false"
+        per_call[bb] = e
+        if e:
+            pol[gid].add(e)
+    for bb, gid, lit, (tt, ft) in gate_calls:
+        edges = pol.get(gid, set())
+        others = {per_call[b2] for b2, g2, _l, _t in gate_calls if g2 == gid and b2 != bb and per_call[b2]}
+        e = per_call[bb]
+        if e and others and e not in others:
+            r.violate("R8a|gate-polarity|%s" % lit, "the gate of `%s` lets the code through on its %s edge, the other calls of %s on the %s edge" % (
+                lit, e, gid.split("::")[-1], sorted(others)[0]))
+            continue
+        if e is None:
+            e = sorted(others)[0] if len(others) == 1 else "false"
+        gates[lit] = (bb, tt if e == "true" else ft)
     # accepted by the configuration loader
     # the configuration loader: literal tables (array literals or const items) in the config module that contain at least one
     # of the gated / constructed codes are the tables of accepted codes
@@ -228,7 +260,9 @@ def r11a_analyze_then_publish(ctx):
         if not re.search(r"::did_(open|change)::", h.id):
             continue
         ana = [bb for bb, c in h.calls() if c.get("res_local") and entry is not None and entry.id in db.cg.reach([c["res"]])]
-        pub = [bb for bb, c in h.calls() if (c.get("res") or "").endswith("::publish_diagnostics_for_file")]
+        from .. import roles
+        pubs = roles.diagnostics_publishers(ctx)
+        pub = [bb for bb, c in h.calls() if c.get("res_local") and c.get("res") in pubs]
         n += 1
         key = "R11a|%s" % h.id
         if not ana:
@@ -430,11 +464,16 @@ def _scope_owner(f, op, depth=0):
 
 
 # ------------------------------------------------------------------------------------------ CLI
+def _unused_fns(ctx):
+    from .. import roles
+    return roles.unused_list_fns(ctx)
+
+
 def _unused_cmd(ctx):
     """the `fixtures unused` command, found by role (calls get_unused_fixtures and process::exit), as inlined view so that
     output helpers extracted from it are seen"""
     cands = [f for f in ctx.bin.real_fns() if f.kind in ("fn", "method")
-             and any((c.get("res") or "").endswith("::get_unused_fixtures") for _b, c in f.calls())
+             and any((c.get("res") in _unused_fns(ctx)) for _b, c in f.calls())
              and any((c.get("res") or "") == "std::process::exit" for _b, c in f.calls())]
     if len(cands) != 1:
         return None
@@ -449,7 +488,7 @@ def r11b_exit_status(ctx):
     if f is None:
         r.anchor_missing("unused-fixtures command", "no function that calls get_unused_fixtures and std::process::exit")
         return r
-    src = [bb for bb, c in f.calls() if (c.get("res") or "").endswith("::get_unused_fixtures")]
+    src = [bb for bb, c in f.calls() if (c.get("res") in _unused_fns(ctx))]
     if len(src) != 1:
         r.anchor_missing("get_unused_fixtures call", "found %d" % len(src))
         return r
@@ -688,17 +727,25 @@ def r8c_text_fallback(ctx):
                       "textual fallback used while the document does not parse: the fallback's literal tests are evaluated on the "
                       "synthetic line `@<m>.fixture`")
     crate = ctx.bin
-    rec = crate.fn("is_fixture_decorator")
-    if rec is None:
-        r.anchor_missing("is_fixture_decorator", "not found")
-        return r
+    # the AST recogniser by role: a function over a Python `Expr` that compares identifiers with the literal "fixture"
     mods = set()
-    for bb, c in rec.calls():
-        if "PartialEq" in (c.get("fn") or ""):
-            for a in c["args"]:
-                for s in literals_reaching(rec, a):
-                    if s and s != "fixture":
-                        mods.add(s)
+    recs = []
+    for f0 in crate.real_fns():
+        if f0.kind not in ("fn", "method") or not any("rustpython" in f0.local_ty(i) and "Expr" in f0.local_ty(i) for i in range(1, f0.argc + 1)):
+            continue
+        lits = set()
+        for g in [g for g in crate.real_fns() if g.root == f0.id]:
+            for bb, c in g.calls():
+                if "PartialEq" in (c.get("fn") or "") or (c.get("res") or "").endswith("str>::eq"):
+                    for a in c["args"]:
+                        lits |= {x for x in literals_reaching(g, a) if x and re.fullmatch(r"[A-Za-z_][A-Za-z_0-9]*", x)}
+        if "fixture" in lits:
+            recs.append(f0.id)
+            mods |= lits - {"fixture"}
+    if not recs:
+        r.anchor_missing("AST recogniser of fixture decorators", "no function over Expr compares with the literal \"fixture\"")
+        return r
+    r.counts["ast_recognisers"] = ",".join(sorted(x.split("::")[-1] for x in recs))
     r.counts["ast_modules"] = ",".join(sorted(mods))
     # textual fallback: functions in the completion-context code that test lines with contains/starts_with literals mentioning 'fixture'
     tests = []
@@ -816,4 +863,58 @@ def r8d_decorator_keywords(ctx):
         else:
             r.ok(sample={"extractor": root.split("::")[-1], "keyword": sorted(lits)})
     r.floor("decorator keyword extractors", n, 3)
+    return r
+
+
+def r8e_text_fallback_on_every_miss(ctx):
+    r = Result("R8e", "the completion-context classifier (by role: returns Option<CompletionContext>, obtains the parsed AST and calls "
+                      "a text fallback -- a callee returning the same type whose parameters carry no AST) answers `None` only through "
+                      "the fallback: every path from the AST lookup to a return passes a `Some(..)` construction of the result or "
+                      "the fallback call. A classifier that returns the AST walk's own `None` (fallback only when the parse fails) "
+                      "offers nothing inside functions the walk does not reach (nested in `if`, `try`, `with`, another function)")
+    crate = ctx.bin
+    CC = "CompletionContext"
+    n = 0
+    for f in crate.real_fns():
+        if f.kind not in ("fn", "method") or CC not in f.ret or "Option" not in f.ret:
+            continue
+        parse = [bb for bb, c in f.calls() if re.search(r"::get_parsed_ast$|rustpython_parser::parse", c.get("res") or "")]
+        if not parse:
+            continue
+        fb = []
+        for bb, c in f.calls():
+            g = crate.fns.get(c.get("res")) if c.get("res_local") else None
+            if g is None or g.id == f.id or CC not in g.ret or "Option" not in g.ret:
+                continue
+            if any("rustpython" in g.local_ty(i) for i in range(1, g.argc + 1)):
+                continue
+            fb.append(bb)
+        if not fb:
+            continue
+        n += 1
+        some = set()
+        for bb, si, pl, rv, sp in f.assigns():
+            if place_local(pl) == 0 and rv[0] == "agg" and rv[1][0] == "adt" and rv[1][1].endswith("Option") and len(rv[2]) == 1:
+                some.add(bb)
+        stop = some | set(fb)
+        bad = False
+        for p0 in parse:
+            seen, st = {p0}, [p0]
+            while st:
+                x = st.pop()
+                if x in stop and x != p0:
+                    continue
+                if f.blocks[x]["t"][0] == "ret":
+                    bad = True
+                    break
+                for s2 in f.succs(x):
+                    if s2 not in seen:
+                        seen.add(s2)
+                        st.append(s2)
+        key = "R8e|%s" % f.id
+        if bad:
+            r.violate(key, "%s can return the AST walk's own miss without consulting the text fallback" % f.id)
+        else:
+            r.ok(sample={"classifier": f.id.split("::")[-1], "fallback_calls": len(fb)})
+    r.floor("completion-context classifiers with a text fallback", n, 1)
     return r
